@@ -247,6 +247,7 @@ package proto
 //@ ensures {C01,C02} err == nil ==> S_in[old(S_pos)+num] == 13 && S_in[old(S_pos)+num+1] == 10
 //@ ensures {C06} err != nil ==> result0 == nil
 //@ ensures {C06} err == nil ==> result0 != nil
+//@ ensures {C02,C03} old(S_pos) + num + 2 <= S_end && S_in[old(S_pos)+num] == 13 && S_in[old(S_pos)+num+1] == 10 ==> err == nil
 //@ loop 0
 //@   invariant 0 <= totalRead && totalRead <= n && n == num + 2
 //@   invariant S_pos == old(S_pos) + totalRead && S_pos <= S_end
@@ -259,6 +260,7 @@ package proto
 //@ assigns S_pos
 //@ ensures {C06,C11} old(S_pos) <= S_pos && S_pos <= S_end
 //@ ensures {C06} err != nil ==> result0 == nil
+//@ ensures {C02,C03} err == nil
 //@ ensures {C01,C02} err == nil ==> forall i int :: 0 <= i && i < len(result0) ==> result0[i] == S_in[old(S_pos)+i] && result0[i] != 13
 //@ ensures {C01,C02} err == nil && old(S_pos) + len(result0) < S_end ==> S_in[old(S_pos)+len(result0)] == 13
 //@ ensures {C02} err == nil && old(S_pos) + len(result0) + 2 <= S_end ==> S_pos == old(S_pos) + len(result0) + 2
@@ -268,6 +270,7 @@ package proto
 //@   invariant (n == 1 && err == nil) ==> S_pos == old(S_pos) + buf_len[&readBytes] + 1 && readByte[0] == S_in[S_pos-1]
 //@   invariant !(n == 1 && err == nil) ==> S_pos == old(S_pos) + buf_len[&readBytes]
 //@   invariant (err != nil) <==> (n == 0)
+//@   invariant err == nil || err == io.EOF
 //@   invariant err != nil && err != io.EOF ==> !errors.Is(err, io.EOF)
 //@   invariant err == io.EOF ==> S_pos == S_end
 //@   invariant len(readByte) == 1 && fresh(readByte)
